@@ -714,6 +714,11 @@ func runImpl(c *caseT) (outcome, any) {
 			// result must still attribute them to the extractor that produced them
 			x.Preset = &scankit.Ex{N: "stale-attribution"}
 		}
+		if len(exs) == 1 {
+			// the second extractor of a set returns findings only (no package): what it returns is
+			// inventory all the same
+			x.OnlyFinding = true
+		}
 		exs = append(exs, x)
 	}
 	m := memfs.New(c.root)
@@ -906,6 +911,9 @@ func check(c *caseT) (kind, detail string, nontrivial bool) {
 	var wantPk []string
 	for _, cl := range out.calls {
 		ex, p, _ := strings.Cut(cl, "|")
+		if len(c.Exs) > 1 && ex == c.Exs[1].name {
+			continue // findings only
+		}
 		loc := p
 		if c.Opts.RealRoot && c.Opts.AbsPath {
 			loc = out.absBase + "/" + p
@@ -987,6 +995,8 @@ func main() {
 	twoRootsWithOptions(r, ls)
 	lap("two-roots-with-options")
 	requiredExtractors(r)
+	deepGitignore(r)
+	symlinkedRoot(r)
 	wideDirectories(r)
 	lap("wide-directories")
 	defer func() {}()
@@ -1060,7 +1070,7 @@ func main() {
 	r.Set("bound", map[string]any{"max_nodes_completed": completedNodes, "max_option_deviations": maxDev, "extractor_sets": len(exSets)})
 	r.Assume("reference dispatch model (this file, ~200 lines) states git's .gitignore semantics for the 5-pattern alphabet and the skip rules of the property text")
 	r.Assume("regular-expression and glob *matching* are taken from the same libraries the implementation uses; only the dispatch logic is under test")
-	r.Finish(fmt.Sprintf("every tree with <=%d labelled nodes (names a, a.d, b.txt, 'd e', -x, .gitignore(8 bodies incl. a negation and CRLF line ends; 4 in quick), pkg.json; dirs, files of size 0/1/5, exec bit, symlinks to file/dir/dangling, named pipe) x every option vector with <=%d deviations from the defaults (skip list, regex, glob, gitignore, requested paths incl. dir+file and '.', sub-dir cut-off, max size 1/5, symlinks, absolute paths, ReadDirFile on/off, virtual root vs. root with a host path - spelled /r, /r/, /r/., /r/x/.., //r, or being / itself, in rotation - and absolute skip/request paths) x %d extractor sets (quick: 2 of them on 4-node trees); Scanner.Scan over memfs vs reference dispatch model (trees <=3 nodes: scanned twice with the same configuration and plugin instances, second scan must equal the first); plus two virtual roots with different content (the tree and the tree without its top-level .gitignore / with other sizes, both orders) under every option vector with <=2 deviations, each root judged by the model on its own; plus EnableRequiredExtractors for every list of 1..3 detectors requiring the same / different / no extractors; plus one directory of W entries for every W<=%d and 2^k-1,2^k,2^k+1,1.5*2^k up to %d x 3 placements x 5 directory-listing behaviours (ReadDir, ReadDirFile full batches, short batches of 1/3/100); non-trivial = some option active and >=1 extraction expected", maxNodes, maxDev, len(exSets), ev.Pick(r, 40, 300), ev.Pick(r, 1024, 4096)), completedNodes == maxNodes)
+	r.Finish(fmt.Sprintf("every tree with <=%d labelled nodes (names a, a.d, b.txt, 'd e', -x, .gitignore(8 bodies incl. a negation and CRLF line ends; 4 in quick), pkg.json; dirs, files of size 0/1/5, exec bit, symlinks to file/dir/dangling, named pipe) x every option vector with <=%d deviations from the defaults (skip list, regex, glob, gitignore, requested paths incl. dir+file and '.', sub-dir cut-off, max size 1/5, symlinks, absolute paths, ReadDirFile on/off, virtual root vs. root with a host path - spelled /r, /r/, /r/., /r/x/.., //r, or being / itself, in rotation - and absolute skip/request paths) x %d extractor sets (quick: 2 of them on 4-node trees); Scanner.Scan over memfs vs reference dispatch model (trees <=3 nodes: scanned twice with the same configuration and plugin instances, second scan must equal the first); plus two virtual roots with different content (the tree and the tree without its top-level .gitignore / with other sizes, both orders) under every option vector with <=2 deviations, each root judged by the model on its own; plus directory chains 1..4 deep with a .gitignore in every subset of levels and each level requested explicitly; a scan root reached through a symbolic link; plus EnableRequiredExtractors for every list of 1..3 detectors requiring the same / different / no extractors; plus one directory of W entries for every W<=%d and 2^k-1,2^k,2^k+1,1.5*2^k up to %d x 3 placements x 5 directory-listing behaviours (ReadDir, ReadDirFile full batches, short batches of 1/3/100); non-trivial = some option active and >=1 extraction expected", maxNodes, maxDev, len(exSets), ev.Pick(r, 40, 300), ev.Pick(r, 1024, 4096)), completedNodes == maxNodes)
 }
 
 func replay(r *ev.Run, p string) {
@@ -1534,6 +1544,89 @@ func requiredExtractors(r *ev.Run) {
 			if !reflect.DeepEqual(seen, want) || dup {
 				r.Violation("required-extractor-runs-more-than-once", fmt.Sprintf("detectors requiring %v, python/requirements preconfigured %v: packages %v (want %v), status entries %v", l, pre, seen, want, st), desc)
 			}
+		}
+	}
+}
+
+// deepGitignore: explicitly requested directories 1..4 levels down a chain a/a.d/d e/a (the tree
+// enumeration stops at 4-6 nodes), with a .gitignore in every subset of the levels above and at the
+// requested directory, the ignored file name at the bottom; UseGitignore, with and without the
+// sub-directory cut-off. Expected = the dispatch model (patterns of every ancestor apply).
+func deepGitignore(r *ev.Run) {
+	names := []string{"a", "a.d", "d e", "a"}
+	for depth := 1; depth <= 4; depth++ {
+		for mask := 0; mask < 1<<(depth+1); mask++ { // bit l: a .gitignore in the directory at level l (0 = root)
+			var build func(level int) []*memfs.Node
+			build = func(level int) []*memfs.Node {
+				var kids []*memfs.Node
+				if mask&(1<<level) != 0 {
+					kids = append(kids, memfs.F(".gitignore", "b.txt\n"))
+				}
+				if level == depth {
+					kids = append(kids, memfs.F("b.txt", "x"), memfs.F("pkg.json", "x"))
+					return kids
+				}
+				kids = append(kids, memfs.D(names[level], build(level+1)...))
+				return kids
+			}
+			root := memfs.D("", build(0)...)
+			for req := 1; req <= depth; req++ {
+				for _, nosub := range []bool{false, true} {
+					o := opts{Git: true, Paths: []string{strings.Join(names[:req], "/")}, NoSub: nosub}
+					if !validOptions(root, o) {
+						continue // a don't-care cell: the whole-tree scan would not reach the requested directory
+					}
+					c := &caseT{Tree: root.String(), Opts: o, Exs: exSets[1], ExS: exStr(exSets[1]), root: root}
+					kind, detail, _ := check(c)
+					r.Evals.Add(1)
+					r.Nontrivial.Add(1)
+					if kind != "" {
+						r.Violation(kind+":deep:"+o.active(), fmt.Sprintf("tree %s options %+v: %s", c.Tree, o, detail), map[string]any{"tree": c.Tree, "options": o})
+					}
+				}
+			}
+		}
+	}
+}
+
+// symlinkedRoot: the scan root is given by a host path that contains a symbolic link (a real
+// temporary directory reached through a link); requested and skipped paths are spelled through the
+// same link. The result must be that of the plain root.
+func symlinkedRoot(r *ev.Run) {
+	base, err := os.MkdirTemp("", "c01-root-")
+	if err != nil {
+		return
+	}
+	defer os.RemoveAll(base)
+	if os.Mkdir(base+"/real", 0o755) != nil || os.Symlink("real", base+"/link") != nil {
+		return
+	}
+	tree := memfs.D("", memfs.D("a", memfs.F("b.txt", "x"), memfs.F("pkg.json", "x")), memfs.F("b.txt", "x"))
+	link := base + "/link"
+	for _, v := range []struct {
+		name  string
+		paths []string
+		skip  []string
+		want  []string
+	}{
+		{"whole tree", nil, nil, []string{"a/b.txt", "a/pkg.json", "b.txt"}},
+		{"requested directory", []string{link + "/a"}, nil, []string{"a/b.txt", "a/pkg.json"}},
+		{"skipped directory", nil, []string{link + "/a"}, []string{"b.txt"}},
+	} {
+		rec := &scankit.Rec{}
+		ex := &scankit.Ex{N: "e-always", Rec: rec, Req: reqFn("always")}
+		cfg := &scalibr.ScanConfig{FilesystemExtractors: []filesystem.Extractor{ex}, Capabilities: &plugin.Capabilities{},
+			ScanRoots: []*scalibrfs.ScanRoot{{FS: memfs.New(tree), Path: link}}, PathsToExtract: v.paths, DirsToSkip: v.skip}
+		res := scalibr.New().Scan(context.Background(), cfg)
+		r.Evals.Add(1)
+		r.Nontrivial.Add(1)
+		var got []string
+		for _, e := range rec.Of("extract") {
+			got = append(got, e.Path)
+		}
+		sort.Strings(got)
+		if strings.Join(got, ";") != strings.Join(v.want, ";") || strings.HasPrefix(res.Status.String(), "FAILED") {
+			r.Violation("root-through-symlink:"+v.name, fmt.Sprintf("scan root %s (a symbolic link to a directory), %s %v%v: extracted %v, want %v (%s)", link, v.name, v.paths, v.skip, got, v.want, res.Status), map[string]any{"variant": v.name})
 		}
 	}
 }
